@@ -433,15 +433,15 @@ func (v Value) assign(t Type) Value {
 		case TypeFloat64:
 			return Value{t: t, num: v.num}
 		case TypeInt32:
-			return Value{t: t, num: float64(int32(v.num))}
+			return Value{t: t, num: float64(int32(int64(v.num)))}
 		case TypeUint32:
-			return Value{t: t, num: float64(uint32(v.num))}
+			return Value{t: t, num: float64(uint32(int64(v.num)))}
 		case TypeInt8:
-			return Value{t: t, num: float64(int8(v.num))}
+			return Value{t: t, num: float64(int8(int64(v.num)))}
 		case TypeUint8:
-			return Value{t: t, num: float64(uint8(v.num))}
+			return Value{t: t, num: float64(uint8(int64(v.num)))}
 		default:
-			return Value{t: TypeInt32, num: float64(int32(v.num))}
+			return Value{t: TypeInt32, num: float64(int32(int64(v.num)))}
 		}
 	case v.t != TypeNil:
 		return v
